@@ -75,9 +75,15 @@ type gateX struct {
 }
 
 func execGateCase(c *Case) []ModeResult {
+	verdict, short := gateOnce(nil, c)
+	return []ModeResult{{"gate", verdict, short}}
+}
+
+// gateOnce puts one input list through the gate of op (a fresh instance of c.Op when op is nil).
+func gateOnce(op ops.Operator, c *Case) (string, string) {
 	var x gateX
 	if err := json.Unmarshal(c.X, &x); err != nil {
-		return []ModeResult{{"gate", "infra:" + err.Error(), ""}}
+		return "infra:" + err.Error(), ""
 	}
 	inputs := make([]tensor.Tensor, len(x.Dts))
 	for i, d := range x.Dts {
@@ -86,16 +92,19 @@ func execGateCase(c *Case) []ModeResult {
 		}
 		t, err := MkTensor(AbsTensor{Dt: d, Shape: []int{1}, Data: []Elem{IntElem(1)}})
 		if err != nil {
-			return []ModeResult{{"gate", "infra:" + err.Error(), ""}}
+			return "infra:" + err.Error(), ""
 		}
 		inputs[i] = t
 	}
 	before := snapshotAll(inputs)
 	var outs []tensor.Tensor
 	o := guard(func() Observation {
-		op, err := opset13.GetOperator(c.Op)
-		if err != nil {
-			return observeErr(err)
+		if op == nil {
+			var err error
+			op, err = opset13.GetOperator(c.Op)
+			if err != nil {
+				return observeErr(err)
+			}
 		}
 		res, err := op.ValidateInputs(inputs)
 		if err != nil {
@@ -143,7 +152,7 @@ func execGateCase(c *Case) []ModeResult {
 			verdict = "violation:gate modified an input: " + d
 		}
 	}
-	return []ModeResult{{"gate", verdict, o.Short()}}
+	return verdict, o.Short()
 }
 
 func execLookupCase(c *Case) []ModeResult {
